@@ -203,11 +203,17 @@ fn parse_eq_delegate_by(
     }
 
     // `Self` is a keyword, which `syn::Ident` refuses to parse
-    let ident = input.call(<syn::Ident as syn::ext::IdentExt>::parse_any)?;
+    if input.peek(syn::token::SelfType) {
+        let _: syn::token::SelfType = input.parse()?;
+
+        return Ok(SpanOpt(Delegate::BySelf, span));
+    }
+
+    // every other keyword is rejected here: the identifier becomes the name of a generated trait
+    let ident: syn::Ident = input.parse()?;
 
     Ok(SpanOpt(
         match ident.to_string().as_str() {
-            "Self" => Delegate::BySelf,
             "Borrow" => Delegate::ByRef(RefDelegate::Borrow),
             _ => Delegate::ByTrait(ident),
         },
